@@ -54,7 +54,11 @@ BASE = {"Promolecule": Promolecule, "Connectivity": Connectivity, "CartesianGeom
 SOURCES = ["Promolecule", "Connectivity", "CartesianGeometry", "Structure", "Molecule", "ConformerEnsemble", "Conformer"]
 
 POSES = [(0.0, 0.0, 0.0), (0.5, -0.25, 1.0), (-1.5, 2.0, 0.25)]
-XYZ = [(0.0, 0.0, 0.0), (1.25, 0.0, 0.25), (-0.5, 1.0, -0.25), (1.75, 0.875, 0.5)]
+# every row carries values that are NOT representable in float32, at several magnitudes (1e-7 .. 1e3):
+# a route that squeezes an array through a narrower type cannot reproduce them
+XYZ = [(0.1 + 1e-9, 1e-7, -2e-7), (1.25 + 3e-9, 0.1 + 2e-9, 0.25), (-0.5, 1.0 + 1e-7, 48.123456789), (1234.56789012, 0.875, 0.5 + 1e-9)]
+QS = [0.1 + 1e-9, -0.375 - 1e-7, 0.48123456789, 0.25 + 1e-9]
+WEIGHTS = [0.7 + 1e-9, 0.3 - 1e-9]
 ELEMS = ["C", "O", "H", "H"]
 BONDS = [(0, 1), (0, 2), (1, 3)]  # atoms 2 and 3 have exactly one bond (attachment points for join)
 
@@ -111,7 +115,7 @@ def _coords(seed, conf=0, tag=""):
 
 def _charges(conf=0, tag=""):
     off = (0.5 if tag == "b" else 0.0) + conf * 2.0
-    return [0.125 + off, -0.375 + off, 0.0625 + off, 0.25 + off]
+    return [q + off for q in QS]
 
 
 def build_base(clsname, seed, tag="", pop="full"):
@@ -153,7 +157,7 @@ def build_ensemble(seed, tag="", pop="full"):
     e.attrib = _mol_attrib(seed, pop)
     for j, b in enumerate(e.bonds):
         b.attrib = _bond_attrib(j, seed, pop)
-    e.weights = [0.75, 0.25]
+    e.weights = list(WEIGHTS)
     return e
 
 
@@ -179,7 +183,7 @@ def enc(v, depth=0):
         return int(v)
     if isinstance(v, (float, np.floating)):
         f = float(v)
-        return "NaN" if f != f else f
+        return "NaN" if f != f else f"{f!r}|{f.hex()}"  # compared bit for bit (-0.0 != 0.0), NaN == NaN
     if isinstance(v, dict):
         return ("dict", tuple(sorted(((repr(k), enc(x, depth + 1)) for k, x in v.items()))))
     if isinstance(v, (list, tuple)):
@@ -1095,6 +1099,21 @@ def cells2(ctx, routes_for, muts, dirty):
     return out
 
 
+def _self_check(ctx):
+    """the numeric alphabets really are outside float32 (otherwise a precision loss would be invisible)"""
+    for s in ("Molecule", "ConformerEnsemble"):
+        o = build_source(s, ctx.seed).obj
+        for fld in ("coords", "atomic_charges", "weights"):
+            a = getattr(o, fld, None)
+            if a is None:
+                continue
+            a = np.asarray(a, dtype=np.float64)
+            rows = a.reshape(-1, a.shape[-1]) if a.ndim > 1 else a.reshape(-1, 1)
+            lossy = rows.astype(np.float32).astype(np.float64) != rows
+            if not lossy.any(axis=1).all():
+                raise HarnessError(f"C06 alphabet: {s}.{fld} has a row that survives a float32 round trip")
+
+
 def _work(sub, part):
     for cell in part:
         run_cell(sub, cell)
@@ -1118,6 +1137,8 @@ def run(ctx):
         "charges of the atoms carried over are compared; name/charge/mult/attrib of a product and the geometry of a join are "
         "combination rules (C12), not copies",
         "a | b of two Molecules returns a Structure, which has no partial charges: not compared for that route",
+        "coordinates, partial charges and weights are compared bit for bit (NaN == NaN) on every route: none of them goes through "
+        "a text or library format; the source values are not representable in float32 (1e-7 ... 1e3)",
         "attribute dictionaries are compared recursively by value (list == tuple); 'shares no mutable state' includes nested "
         "containers inside attribute dictionaries",
         "parent is compared as a relation (the atom's parent is the object it is listed in, or the ensemble behind a conformer)",
@@ -1126,6 +1147,7 @@ def run(ctx):
         "an edit that is not defined for a class (add_implicit_hydrogens on a Promolecule, renaming a Conformer, ...) leaves "
         "the cell in the matrix: whatever it did, the other side must be unchanged",
     ]
+    _self_check(ctx)
     allc, routes_for, muts = cells(ctx)
     ctx.bound["cells_single"] = len(allc)
     ctx.bound["sources"] = SOURCES
